@@ -304,6 +304,51 @@ def _method_of_enum(ctx, name):
     return en, m
 
 
+def combination_order_ignores_member_order(ctx):
+    """C06: how a union / an intersection compares with another type does not depend on the order in which its
+    members are written (two spellings of one union are equal and share one slot of the tables, keyed by whichever
+    was registered first): the order hook interpreted on 2 and 3 members, every assignment of member comparisons, every
+    permutation of the members."""
+    import itertools
+
+    en = A.order_enum(ctx.repo)
+    n = 0
+    for c in ctx.repo.all_classes():
+        if c.name in ("Union", "Intersection") and "__type_order__" in c.methods:
+            m = c.methods["__type_order__"]
+            ctx.touch(m)
+            rv = recv_name(m)
+            other = [p_ for p_ in m.params if p_ != rv][0]
+            bad = None
+            cases = 0
+            for k in (2, 3):
+                names = tuple(f"m{i}" for i in range(k))
+                for assign in itertools.product(MEMBERS, repeat=k):
+                    tab = dict(zip(names, assign))
+                    answers = {}
+                    for members in itertools.permutations(names):
+
+                        def to(a, b, tab=tab):
+                            return tab.get(a, "NONE") if b == "O" else "NONE"
+
+                        plain = {"getattr": lambda o, name, default=None: default, "isinstance": lambda a, b: False, "type": lambda x: "TYPE-OF-" + str(x)}
+                        got = Interp(en.name, stubs={"typeorder": to, **plain}).run(m.node, {rv: "SELF", other: "O", f"{rv}.types": members, f"{rv}.__args__": members, c.name: "THE-CLASS"})
+                        answers[members] = got
+                        cases += 1
+                    if len(set(answers.values())) > 1 and bad is None:
+                        a_, b_ = list(answers.items())[0], [x for x in answers.items() if x[1] != list(answers.values())[0]][0]
+                        bad = f"with member comparisons {tab} the answer is {a_[1]} for the members written {list(a_[0])} and {b_[1]} written {list(b_[0])}"
+            n += 1
+            ctx.ob(
+                f"{m.key}:member-order-irrelevant",
+                m.loc(),
+                f"{c.name} compares with another type the same way whatever order its members are written in ({cases} cases interpreted)",
+                bad is None,
+                (bad or "") + ": two spellings of one combination are equal and share one table slot, so which answer is used depends on which spelling was registered first",
+            )
+    ctx.require(n == 2, "expected the union and the intersection order hooks")
+
+
 def r4_tables(ctx):
     en, opp = _method_of_enum(ctx, "opposite")
     en, mrg = _method_of_enum(ctx, "merge")
